@@ -62,8 +62,15 @@ def check_frobenius(ctx, it, F):
     ctx.notes["C15.frobenius_shapes"] = [list(s) for s in shapes]
     ctx.notes["C15.tensor_shapes"] = [list(s) for s in tens]
 
-    def ob(f, entry, shape, thunk, ref):
+    def ob(f, entry, shape, thunk, ref, data=None):
+        before = data.copy() if data is not None else None
         st, v = run_guarded(thunk)
+        if data is not None:
+            # the entry points are compared ON THE SAME DATA: a norm routine that overwrites its argument (in-place squaring through
+            # a float view ...) makes every later norm of that array disagree with the definition
+            ctx.ob("C15.D1.same-data", f"{entry} {'x'.join(map(str, shape))}: argument unchanged", arrays_same(data, before),
+                   "the norm routine modifies the array it is given: norms taken afterwards are norms of different data",
+                   where=f.where, construct=f"{entry}: argument modified", loc=f.loc())
         ok = st == "ok" and _same_poly(v, ref)
         ctx.ob("C15.D1.frobenius", f"{entry} {'x'.join(map(str, shape))} = sqrt(sum of squared components)", ok,
                "Frobenius entry point differs from sqrt(sum of all squared components)", where=f.where,
@@ -73,7 +80,7 @@ def check_frobenius(ctx, it, F):
         A = sym_quat("a", (m, n))
         ref = ref_fro2(A).sqrt()
         sp = sparse_from_dense(it, ctx, A)
-        ob(F["fro"], "quat_frobenius_norm[dense]", (m, n), lambda: it.run(F["fro"], [A]), ref)
+        ob(F["fro"], "quat_frobenius_norm[dense]", (m, n), lambda: it.run(F["fro"], [A]), ref, data=A)
         ob(F["fro"], "quat_frobenius_norm[sparse]", (m, n), lambda: it.run(F["fro"], [sp]), ref)
         ob(F["nqs"], "normQsparse(opt=None)[dense planes]", (m, n), lambda: it.run(F["nqs"], planes_of(A)), ref)
         spl = planes_of(A)
@@ -82,15 +89,15 @@ def check_frobenius(ctx, it, F):
         ob(F["nqs"], "normQsparse(opt=None)[sparse planes]", (m, n), lambda: it.run(F["nqs"], spl), ref)
         ob(F["nqs"], "normQsparse(opt=None)[dense planes, explicit None]", (m, n),
            lambda: it.run(F["nqs"], planes_of(A), {"opt": None}), ref)
-        ob(F["nq"], "normQ(opt=None)", (m, n), lambda: it.run(F["nq"], [A]), ref)
-        ob(F["tfro"], "tensor_frobenius_norm[matrix]", (m, n), lambda: it.run(F["tfro"], [A]), ref)
+        ob(F["nq"], "normQ(opt=None)", (m, n), lambda: it.run(F["nq"], [A]), ref, data=A)
+        ob(F["tfro"], "tensor_frobenius_norm[matrix]", (m, n), lambda: it.run(F["tfro"], [A]), ref, data=A)
     for n in (1, 2, 4):
         v = sym_quat("v", (n,))
         ob(F["nqs"], "normQsparse(opt=None)[1-D vector planes]", (n,), lambda: it.run(F["nqs"], planes_of(v)),
            ref_fro2(v).sqrt())
     for shp in tens:
         T = sym_quat("t", shp)
-        ob(F["tfro"], "tensor_frobenius_norm[order-3]", shp, lambda: it.run(F["tfro"], [T]), ref_fro2(T).sqrt())
+        ob(F["tfro"], "tensor_frobenius_norm[order-3]", shp, lambda: it.run(F["tfro"], [T]), ref_fro2(T).sqrt(), data=T)
         st, v = run_guarded(lambda: it.run(F["tabs"], [T]))
         ok = st == "ok" and is_symarr(v, "real", shp) and arrays_same(v, ref_modulus(T))
         ctx.ob("C15.D1.modulus", f"tensor_entrywise_abs {shp} = sqrt(w^2+x^2+y^2+z^2) per entry", ok,
